@@ -24,9 +24,24 @@ static char arena[65536];         /* addresses used as voidp keys */
 #define PTR_KEYS 256
 static struct set_node *ptr_nodes[PTR_KEYS]; /* sorted by address */
 
+/* Re-entrant observation: while the cleanup of an element runs, is that element still a member?
+ * Probed during set_clear always (set.c detaches the tree first, so the probe reads nothing and
+ * changes nothing there) and during set_remove when the case asks for it with `probe 1` (the
+ * lookup then splays the remaining tree, which changes its shape but nothing observable).
+ * Not probed during a replacing set_insert: there set.c runs the cleanup while the old node is
+ * still the root, and the history-level property says nothing about what a callback may see. */
+static struct set *probe_set;
+static int probe_remove;
+static unsigned self_seen[64];
+static int n_self_seen;
+
 static void cleanup_cb(void *p)
 {
     struct elem *e = p;
+    if (probe_set) {
+        struct elem *r = set_find(probe_set, e);
+        if (r == e && n_self_seen < 64) self_seen[n_self_seen++] = e->uid;
+    }
     if (n_disposed < 4096) disposed[n_disposed++] = e->uid;
     if (e->kind == K_CHARP) free(e->key.s);
 }
@@ -37,6 +52,11 @@ static void print_disposed(void)
     printf(" d=");
     for (i = 0; i < n_disposed; i++) printf("%s%u", i ? "," : "", disposed[i]);
     n_disposed = 0;
+    if (n_self_seen) {
+        printf(" cleanup-on-member=");
+        for (i = 0; i < n_self_seen; i++) printf("%s%u", i ? "," : "", self_seen[i]);
+        n_self_seen = 0;
+    }
 }
 
 static int cmp_nodes_addr(const void *a, const void *b)
@@ -97,6 +117,7 @@ static void run_case(char **lines, int n)
             printf("ok\n");
             continue;
         }
+        if (!strcmp(fv[0], "probe") && nf == 2) { probe_remove = atoi(fv[1]); printf("ok\n"); continue; }
         if (!set) { printf("bad-op\n"); continue; }
         switch (fv[0][0]) {
         case 'I': {
@@ -135,7 +156,10 @@ static void run_case(char **lines, int n)
                 if (sn) printf("lower %u\n", ((struct elem *)set_node_data(sn))->uid); else printf("lower none\n");
             } else {
                 int nd = nf >= 3 ? atoi(fv[2]) : 0;
-                int r = set_remove(set, datum, nd);
+                int r;
+                if (probe_remove) probe_set = set;
+                r = set_remove(set, datum, nd);
+                probe_set = NULL;
                 printf("rem %d", r); print_disposed(); printf("\n");
             }
             free(tmp);
@@ -144,7 +168,9 @@ static void run_case(char **lines, int n)
         case 'C': {
             int nd = nf >= 2 ? atoi(fv[1]) : 0;
             unsigned before = set_size(set);
+            probe_set = set;
             set_clear(set, nd);
+            probe_set = NULL;
             printf("clr %u", before); print_disposed(); printf("\n");
             break;
         }
